@@ -97,6 +97,8 @@ Diff(a, b) ==
 OtherTok(t) == CASE t = "str:alice" -> "str:bob" [] t = "int:3" -> "int:4" [] t = "float:0.25" -> "float:0.5"
                  [] t = "bool:T" -> "bool:F" [] t = "list:a,b" -> "list:b,a" [] t = "dict:x=1,y=2" -> "dict:x=1,y=3"
                  [] t = "float:1.5" -> "float:1.25" [] OTHER -> "str:other"
+\* a boolean / an integer replaced by the TEXT that prints the same: different content
+AsText == [x \in {"bool:T", "int:3"} |-> IF x = "bool:T" THEN "str:True" ELSE "str:3"]
 LabelEdits(l) ==        \* every label, changed to another value that keeps the isotherm valid
    (IF l.pressure_mode = "absolute"
     THEN {[l EXCEPT !.pressure_unit = "kPa"], [l EXCEPT !.pressure_mode = "relative", !.pressure_unit = "none"]}
@@ -122,6 +124,7 @@ MutsOf(c) ==
    {None}
    \cup {[kind |-> "meta value", a |-> k, i |-> 0, d |-> <<0, 0>>] : k \in DOMAIN c.meta}
    \cup {[kind |-> "meta key removed", a |-> k, i |-> 0, d |-> <<0, 0>>] : k \in DOMAIN c.meta}
+   \cup {[kind |-> "meta value as text", a |-> k, i |-> 0, d |-> <<0, 0>>] : k \in {x \in DOMAIN c.meta : c.meta[x] \in DOMAIN AsText}}
    \cup {[kind |-> "meta key added", a |-> "extra_key", i |-> 0, d |-> <<0, 0>>]}
    \cup {[kind |-> "label", a |-> "", i |-> n, d |-> <<0, 0>>] : n \in 1..Cardinality(LabelEdits(c.labels))}
    \cup {[kind |-> "material name", a |-> "", i |-> 0, d |-> <<0, 0>>], [kind |-> "material property", a |-> "", i |-> 0, d |-> <<0, 0>>],
@@ -144,6 +147,7 @@ SetToSeqL(S) == LET RECURSIVE f(_) f(T) == IF T = {} THEN <<>> ELSE LET x == CHO
 Apply(c, m) ==
    CASE m.kind = "none" -> c
      [] m.kind = "meta value" -> [c EXCEPT !.meta = [c.meta EXCEPT ![m.a] = OtherTok(c.meta[m.a])]]
+     [] m.kind = "meta value as text" -> [c EXCEPT !.meta = [c.meta EXCEPT ![m.a] = AsText[c.meta[m.a]]]]
      [] m.kind = "meta key removed" -> [c EXCEPT !.meta = [k \in DOMAIN c.meta \ {m.a} |-> c.meta[k]]]
      [] m.kind = "meta key added" -> [c EXCEPT !.meta = [k \in DOMAIN c.meta \cup {m.a} |-> IF k = m.a THEN "str:new" ELSE c.meta[k]]]
      [] m.kind = "label" -> [c EXCEPT !.labels = SetToSeqL(LabelEdits(c.labels))[m.i]]
@@ -180,9 +184,11 @@ Effective(c, m) == ~ContentEq(c, Apply(c, m))
 \*         isotherm with entirely different unit labels was built just before (defaults are content;
 \*         they may not depend on what the session built earlier)
 \*  sub  : the object is an instance of a trivial user subclass (class X(PointIsotherm): pass)
+\*  npm  : metadata and material properties are handed over as NUMPY scalars of every kind (numpy.str_, int64/int32,
+\*         float32/float64, bool_, arrays / tuples of them, dict values), as they come out of arrays and tables
 \*  br = "guess": no branch marks are given at all (the documented default branch='guess')
 Route(cont, lit, br, via, perm, alias) == [cont |-> cont, lit |-> lit, br |-> br, via |-> via, perm |-> perm, alias |-> alias,
-                                           dflt |-> FALSE, sub |-> FALSE]
+                                           dflt |-> FALSE, sub |-> FALSE, npm |-> FALSE]
 R0(c) == CASE c.cls = "point" -> Route(IF c.extras THEN "df_default" ELSE "list", "float", "ints", "direct", FALSE, "name")
            [] c.cls = "base" -> Route("kw", "float", "na", "direct", FALSE, "name")
            [] c.cls = "model" -> Route("instance", "float", "na", "direct", FALSE, "name")
@@ -221,12 +227,13 @@ Applicable(c, r) ==
           /\ (r.lit \in {"int", "npint"} => IntegralModel(c))
           /\ r.via \in {"direct", "json", "copy"}
 \* one factor at a time around R0, plus a few combinations
+HasMeta(c) == DOMAIN c.meta # {} \/ DOMAIN c.material.props # {}
 RoutesOf(c) ==
    LET r0 == R0(c)
        one == {[r0 EXCEPT !.cont = x] : x \in {"list", "tuple", "ndarray", "kw", "instance", "from_dict"} \cup DfCont}
               \cup {[r0 EXCEPT !.lit = x] : x \in {"int", "npfloat", "npint", "lists"}}
               \cup {[r0 EXCEPT !.br = x] : x \in {"bools", "guess"}}
-              \cup {[r0 EXCEPT !.dflt = TRUE], [r0 EXCEPT !.sub = TRUE]}
+              \cup {[r0 EXCEPT !.dflt = TRUE], [r0 EXCEPT !.sub = TRUE], [r0 EXCEPT !.npm = TRUE]}
               \cup {[r0 EXCEPT !.via = x] : x \in {"json", "dict", "copy"}}
               \cup {[r0 EXCEPT !.perm = TRUE]}
               \cup {[r0 EXCEPT !.alias = x] : x \in {"alias", "upper"}}
@@ -266,8 +273,16 @@ RoutesOf(c) ==
                   [Route("kw", "float", "na", "dict", TRUE, "upper") EXCEPT !.dflt = TRUE, !.sub = TRUE],
                   [Route("from_dict", "float", "na", "direct", TRUE, "alias") EXCEPT !.dflt = TRUE, !.sub = TRUE],
                   [Route("instance", "npfloat", "na", "json", FALSE, "name") EXCEPT !.dflt = TRUE],
-                  [Route("instance", "int", "na", "copy", FALSE, "name") EXCEPT !.sub = TRUE]}
-   IN {r \in one \cup combos : Applicable(c, r)}
+                  [Route("instance", "int", "na", "copy", FALSE, "name") EXCEPT !.sub = TRUE],
+                  \* numpy-scalar metadata combined with other factors
+                  [Route("df_shift", "float", "bools", "direct", TRUE, "alias") EXCEPT !.npm = TRUE],
+                  [Route("list", "float", "ints", "json", FALSE, "name") EXCEPT !.npm = TRUE],
+                  [Route("df_default", "float", "column", "from_isotherm", FALSE, "name") EXCEPT !.npm = TRUE, !.sub = TRUE],
+                  [Route("kw", "float", "na", "dict", TRUE, "name") EXCEPT !.npm = TRUE],
+                  [Route("kw", "float", "na", "direct", FALSE, "upper") EXCEPT !.npm = TRUE, !.dflt = TRUE],
+                  [Route("from_dict", "npfloat", "na", "direct", TRUE, "name") EXCEPT !.npm = TRUE],
+                  [Route("instance", "float", "na", "copy", FALSE, "alias") EXCEPT !.npm = TRUE]}
+   IN {r \in one \cup combos : Applicable(c, r) /\ (r.npm => HasMeta(c))}
 
 ---------------------------------------------------------------------------
 \* the scenario table: every base x its mutations x the routes of the mutated content
